@@ -112,12 +112,24 @@ func replayWindowMain(args []string) {
 			inc := map[string]int{}
 			json.Unmarshal(c.Inc, &inc)
 			if len(got) != len(c.C) {
-				add("Obv", fmt.Sprintf("OBV of %d closes has %d values", len(c.C), len(got)))
+				add("Obv/other", fmt.Sprintf("OBV of %d closes has %d values", len(c.C), len(got)))
 			} else {
 				for i := 1; i < len(got); i++ {
 					want := float64(inc[fmt.Sprint(i+1)])
 					if got[i]-got[i-1] != want {
-						add("Obv", fmt.Sprintf("OBV of closes %v volumes %v = %v: step %d is %v, the documented recurrence (close vs previous close) gives %v", c.C, c.V, got, i, got[i]-got[i-1], want))
+						// the recorded deviation: the close is compared with the previous OBV value instead of the previous close;
+						// anything else is reported under another name, which no finding matches
+						recorded := 0.0
+						if float64(c.C[i]) > got[i-1] {
+							recorded = float64(c.V[i])
+						} else if float64(c.C[i]) < got[i-1] {
+							recorded = -float64(c.V[i])
+						}
+						name := "Obv"
+						if got[i]-got[i-1] != recorded {
+							name = "Obv/other"
+						}
+						add(name, fmt.Sprintf("OBV of closes %v volumes %v = %v: step %d is %v, the documented recurrence (close vs previous close) gives %v", c.C, c.V, got, i, got[i]-got[i-1], want))
 						break
 					}
 				}
